@@ -498,6 +498,12 @@ def has_kind(T, kinds):
     return any(has_kind(f[1], kinds) for f in T.get('fields', ())) or ('elem' in T and has_kind(T['elem'], kinds))
 
 
+def mixed_setof(T):
+    if T['k'] == 'SETOF' and T['elem']['k'] == 'CHOICE':     # explicitly tagged or not: the alternatives' tag sets differ
+        return True
+    return any(mixed_setof(f[1]) for f in T.get('fields', ())) or ('elem' in T and mixed_setof(T['elem']))
+
+
 def chk_schemaless(T, v, M):
     """C16: decoding a self-describing DER/BER/CER encoding without a guiding type yields a value object whose
     DER re-encoding is byte-identical and whose leaves equal the original's."""
@@ -515,10 +521,13 @@ def chk_schemaless(T, v, M):
         d = de.encode(val)
     except Exception:
         return [], 0
-    for ename, e, dec in (('DER', d, dd), ('DER->BER', d, bd), ('BER-indef', None, bd), ('CER', None, cd)):
+    for ename, e, dec in (('DER', d, dd), ('DER->BER', d, bd), ('BER-indef', None, bd), ('CER', None, cd),
+                          ('BER-segmented', None, bd), ('BER-indef-segmented', None, bd)):
         if e is None:
             try:
-                e = be.encode(val, defMode=False) if ename == 'BER-indef' else ce.encode(val)
+                e = {'BER-indef': lambda: be.encode(val, defMode=False), 'CER': lambda: ce.encode(val),
+                     'BER-segmented': lambda: be.encode(val, maxChunkSize=1),
+                     'BER-indef-segmented': lambda: be.encode(val, defMode=False, maxChunkSize=1)}[ename]()
             except Exception:
                 continue
         n += 1
@@ -543,15 +552,35 @@ def chk_schemaless(T, v, M):
             out.append(fail('schemaless', T, v, 'leaves differ', enc=e, codec=ename, got=repr(got_leaves)[:300],
                             want=repr(want_leaves)[:300]))
             continue
-        if ename == 'DER':
+        # whichever form it was read from, the value is the one the DER encoding denotes (C04: decoded from any BER form).
+        # Not asked of a SET OF whose members carry differing tags read from a form that does not order them: without the
+        # type such a container is indistinguishable from a SET (the property's quantifier leaves the case out)
+        if ename != 'DER' and mixed_setof(T):
+            continue
+        try:
+            re_ = de.encode(r)
+        except Exception as ex:
+            out.append(fail('schemaless', T, v, 're-encoding raised %s: %s' % (type(ex).__name__, str(ex)[:150]),
+                            enc=e, codec=ename))
+            continue
+        if re_ != d:
+            out.append(fail('schemaless', T, v, 're-encoding differs' if ename == 'DER' else
+                            'DER of what was read from the %s form differs from the DER encoding' % ename,
+                            enc=e, got=re_, codec=ename))
+            continue
+        if ename.endswith('segmented'):
+            # ... and cutting it into segments again gives an encoding of the same value
             try:
-                re_ = de.encode(r)
+                seg_ = be.encode(r, maxChunkSize=1)
+                got_, rest_ = x690.decode(T, seg_)
+                if got_ != x690.norm(T, v) or rest_:
+                    out.append(fail('schemaless', T, v, 'segmented re-encoding denotes another value', enc=seg_, codec=ename))
+            except x690.Malformed as ex:
+                out.append(fail('schemaless', T, v, 'segmented re-encoding is not a valid encoding: %s' % ex, enc=seg_,
+                                codec=ename))
             except Exception as ex:
-                out.append(fail('schemaless', T, v, 're-encoding raised %s: %s' % (type(ex).__name__, str(ex)[:150]),
+                out.append(fail('schemaless', T, v, 'segmented re-encoding raised %s: %s' % (type(ex).__name__, str(ex)[:100]),
                                 enc=e, codec=ename))
-                continue
-            if re_ != e:
-                out.append(fail('schemaless', T, v, 're-encoding differs', enc=e, got=re_, codec=ename))
     return out, n
 
 
